@@ -472,8 +472,7 @@ Proof.
       assert (Hw : cmp w > 0) by (apply FA; rewrite <- Ha, Hi3; apply in_or_app; right; right; left; reflexivity).
       lia. }
     subst nr. exists (Node nl nx b). split; [reflexivity|].
-    cbn [inorder] in *. rewrite app_nil_r in Hi3 |- *. rewrite <- Ha, Hi3, Hb.
-    rewrite <- app_assoc. reflexivity.
+    rewrite <- Ha, Hi3, <- Hb. cbn [inorder]. rewrite <- app_assoc. reflexivity.
 Qed.
 
 End SplayProofs.
